@@ -559,18 +559,19 @@ pub fn fuzz_block(target: &str, runs: u64, seed: u64, max_len: u32) -> Block {
             .env("VERIF_FUZZ_STATS", &stats)
             .current_dir(VERIF_DIR)
             .stdout(std::process::Stdio::null())
-            .stderr(std::process::Stdio::piped())
+            .stderr(std::fs::File::create(scratch.join(format!("stderr{}.log", p))).map(std::process::Stdio::from).unwrap_or_else(|_| std::process::Stdio::null()))
             .spawn();
         if let Ok(c) = child {
-            children.push((c, stats));
+            children.push((c, stats, scratch.join(format!("stderr{}.log", p))));
         }
     }
-    for (c, stats) in children {
-        let out = match c.wait_with_output() {
-            Ok(o) => o,
+    for (mut c, stats, errfile) in children {
+        // stderr goes to a file: a pipe would fill up and block the children that are not being drained yet
+        let status = match c.wait() {
+            Ok(s) => s,
             Err(_) => continue,
         };
-        let err = String::from_utf8_lossy(&out.stderr).to_string();
+        let err = std::fs::read_to_string(&errfile).unwrap_or_default();
         let mut done = 0u64;
         for l in err.lines() {
             if let Some(rest) = l.strip_prefix("Done ") {
@@ -597,7 +598,7 @@ pub fn fuzz_block(target: &str, runs: u64, seed: u64, max_len: u32) -> Block {
             }
         }
         b.evaluations += done;
-        if !out.status.success() {
+        if !status.success() {
             if let Some(line) = err.lines().find(|l| l.starts_with("VIOLATION property=")) {
                 let path = line.split("replay=").nth(1).unwrap_or("").trim().to_string();
                 if let Ok(v) = load_replay(&path) {
